@@ -5,6 +5,7 @@ package mut
 import (
 	"fmt"
 	"math/rand"
+	"strings"
 
 	. "verif/ast"
 	"verif/ref/typing"
@@ -473,6 +474,36 @@ var ops = []op{
 		c.Args = args
 		*s.t = Term{Op: "drop", X: Base(old), Cont: &c}
 		return fmt.Sprintf("call %s passes %s twice (and drops %s) in %s", c.Fn, Base(args[i]), Base(old), s.where)
+	}},
+	{"cut-binder-as-provider-argument", "substructural", func(p *Program, r *rand.Rand, ss []site) string {
+		// y <- new f(a)  becomes  x <- new f(x, a)  for a live name x: the call names its
+		// provider by the name the cut binds, which is also a channel still owed a use
+		s := pickSite(r, ss, func(s site) bool {
+			return s.t.Op == "new" && s.t.Body != nil && s.t.Body.Op == "call" && len(others(s.live, s.t.Y)) > 0
+		})
+		if s == nil {
+			return ""
+		}
+		t := s.t
+		live := others(s.live, t.Y)
+		z := live[r.Intn(len(live))]
+		for _, a := range t.Body.Args {
+			if Base(a) == z {
+				return ""
+			}
+		}
+		old := Base(t.Y)
+		renameFree(t.Cont, old, "qq_tmp")
+		t.Y = z
+		renameFree(t.Cont, "qq_tmp", z)
+		c := *t.Body
+		args := c.Args
+		if f := p.FuncByName(c.Fn); f != nil && len(args) == len(f.Params)+1 {
+			args = args[1:]
+		}
+		c.Args = append([]string{z}, args...)
+		t.Body = &c
+		return fmt.Sprintf("cut binder renamed to live name %s, which the call also names as its provider, in %s", z, s.where)
 	}},
 	{"multi-name", "substructural", func(p *Program, r *rand.Rand, ss []site) string {
 		var c []*Proc
@@ -1267,4 +1298,225 @@ func Compose(ps []*Program) *Program {
 	}
 	out.Feat["composed"] = len(ps)
 	return out
+}
+
+// Inflate returns a copy of p made large in one respect without changing what it means:
+//   alias-chain: one type definition is reached through a chain of 9..40 pure aliases
+//   pad-types:   66..90 unused type definitions are declared first (recursive, unannotated ones among them)
+//   pad-funcs:   33..45 unused functions are declared first
+//   cut-chain:   the first process starts with a chain of 20..60 cuts of closed units, waited for (or dropped) in turn
+//   long-names:  every function, type and top-level process name gets a 70..120 character suffix
+//   many-params: a function with 9..14 parameters, called once by a new top-level process
+// (typing, the printed labels and the outcome are unchanged; "" kind = random)
+func Inflate(p *Program, r *rand.Rand, kind string) (*Program, string) {
+	kinds := []string{"alias-chain", "alias-chain", "alias-chain", "pad-types", "pad-funcs", "cut-chain", "long-names", "many-params"}
+	if kind == "" {
+		kind = kinds[r.Intn(len(kinds))]
+	}
+	q := p.Clone()
+	q.Order = nil
+	switch kind {
+	case "alias-chain":
+		if len(q.Types) == 0 {
+			return Inflate(p, r, "pad-types")
+		}
+		i := r.Intn(len(q.Types))
+		td := q.Types[i]
+		n := 9 + r.Intn(25)
+		if r.Intn(3) > 0 {
+			n = 34 + r.Intn(40)
+		}
+		m := td.T.M
+		if td.T.IsShift() {
+			return Inflate(p, r, "pad-types")
+		}
+		// half of the chains are written without mode annotations on the links (the mode is
+		// inherited along the whole chain from its last definition)
+		bare := r.Intn(2) == 0 && !td.Bare
+		var chain []TypeDef
+		name := func(j int) string { return fmt.Sprintf("%sZ%d", td.Name, j) }
+		q.Types[i] = TypeDef{Name: td.Name, T: Named(name(1), m), Bare: bare}
+		for j := 1; j < n; j++ {
+			chain = append(chain, TypeDef{Name: name(j), T: Named(name(j+1), m), Bare: bare})
+		}
+		chain = append(chain, TypeDef{Name: name(n), T: td.T, Bare: td.Bare})
+		if bare {
+			// the uses of the name are written without a mode as well: their mode comes down
+			// the whole chain
+			strip := func(t *Ty) *Ty {
+				if t != nil && t.K == KName && t.Name == td.Name && t.M == m { // only where inference gives back the recorded mode
+					c := *t
+					c.Bare = true
+					return &c
+				}
+				return t
+			}
+			inTerm := func(t *Term) {
+				Walk(t, func(x *Term) {
+					if x.Op == "new" && x.Ann != nil {
+						x.Ann = strip(x.Ann)
+					}
+				})
+			}
+			for _, f := range q.Funcs {
+				f.Ret = strip(f.Ret)
+				for j := range f.Params {
+					f.Params[j].T = strip(f.Params[j].T)
+				}
+				inTerm(f.Body)
+			}
+			for _, pr := range q.Procs {
+				pr.T = strip(pr.T)
+				inTerm(pr.Body)
+			}
+		}
+		if r.Intn(2) == 0 {
+			q.Types = append(q.Types, chain...)
+		} else {
+			q.Types = append(chain, q.Types...)
+		}
+	case "pad-types":
+		n := 66 + r.Intn(25)
+		var pad []TypeDef
+		for j := 0; j < n; j++ {
+			m := AllModes[r.Intn(4)]
+			nm := fmt.Sprintf("Pad%d", j)
+			var t *Ty
+			switch r.Intn(4) {
+			case 0:
+				t = Unit(m)
+			case 1:
+				t = Plus(m, Branch{L: "next", T: Named(nm, m)}, Branch{L: "stop", T: Unit(m)})
+			case 2:
+				t = Send(m, Unit(m), Named(nm, m))
+			default:
+				t = With(m, Branch{L: "go", T: Unit(m)})
+			}
+			pad = append(pad, TypeDef{Name: nm, T: t})
+		}
+		if r.Intn(3) == 0 {
+			q.Types = append(q.Types, pad...)
+		} else {
+			q.Types = append(pad, q.Types...)
+		}
+	case "pad-funcs":
+		n := 33 + r.Intn(13)
+		var pad []*Func
+		for j := 0; j < n; j++ {
+			m := AllModes[r.Intn(4)]
+			pad = append(pad, &Func{Name: fmt.Sprintf("padf%d", j), Params: []Var{{N: "x", T: Unit(m)}}, Ret: Unit(m), Body: &Term{Op: "wait", X: "x", Cont: &Term{Op: "close", X: "self"}}})
+		}
+		q.Funcs = append(pad, q.Funcs...)
+	case "cut-chain":
+		if len(q.Procs) == 0 {
+			return Inflate(p, r, "pad-funcs")
+		}
+		pr := q.Procs[r.Intn(len(q.Procs))]
+		m := pr.T.M
+		n := 20 + r.Intn(41)
+		body := pr.Body
+		for j := n - 1; j >= 0; j-- {
+			body = &Term{Op: "wait", X: fmt.Sprintf("cc%d", j), Cont: body}
+		}
+		for j := n - 1; j >= 0; j-- {
+			body = &Term{Op: "new", Y: fmt.Sprintf("cc%d", j), Ann: Unit(m), Body: &Term{Op: "close", X: "self"}, Cont: body}
+		}
+		pr.Body = body
+	case "long-names":
+		sfx := "_" + strings.Repeat("long", 17+r.Intn(13))
+		tm, fm := map[string]string{}, map[string]string{}
+		for _, td := range q.Types {
+			tm[td.Name] = td.Name + sfx
+		}
+		for _, f := range q.Funcs {
+			fm[f.Name] = f.Name + sfx
+		}
+		var reTy func(t *Ty)
+		reTy = func(t *Ty) {
+			if t == nil {
+				return
+			}
+			if t.K == KName {
+				if n, ok := tm[t.Name]; ok {
+					t.Name = n
+				}
+			}
+			reTy(t.L)
+			reTy(t.R)
+			for _, b := range t.Br {
+				reTy(b.T)
+			}
+		}
+		reTerm := func(t *Term) {
+			Walk(t, func(x *Term) {
+				if x.Op == "call" {
+					if n, ok := fm[x.Fn]; ok {
+						x.Fn = n
+					}
+				}
+				if x.Op == "new" && x.Ann != nil {
+					x.Ann = x.Ann.Clone()
+					reTy(x.Ann)
+				}
+			})
+		}
+		for i := range q.Types {
+			reTy(q.Types[i].T)
+			q.Types[i].Name = tm[q.Types[i].Name]
+		}
+		for _, f := range q.Funcs {
+			f.Name = fm[f.Name]
+			reTy(f.Ret)
+			for j := range f.Params {
+				reTy(f.Params[j].T)
+			}
+			reTerm(f.Body)
+		}
+		var tops []string
+		for _, pr := range q.Procs {
+			tops = append(tops, pr.Names...)
+		}
+		for _, pr := range q.Procs {
+			reTy(pr.T)
+			reTerm(pr.Body)
+			for _, n := range tops {
+				renameFree(pr.Body, n, n+sfx)
+			}
+			for j := range pr.Names {
+				pr.Names[j] += sfx
+			}
+		}
+		for i, e := range q.Execs {
+			q.Execs[i] = fm[e]
+		}
+	case "many-params":
+		n := 9 + r.Intn(6)
+		m := Rep
+		if len(q.Procs) > 0 {
+			m = q.Procs[0].T.M
+		}
+		f := &Func{Name: "manyp", Ret: Unit(m)}
+		body := &Term{Op: "close", X: "self"}
+		for j := n - 1; j >= 0; j-- {
+			body = &Term{Op: "wait", X: fmt.Sprintf("mp%d", j), Cont: body}
+		}
+		call := &Term{Op: "call", Fn: "manyp"}
+		for j := 0; j < n; j++ {
+			f.Params = append(f.Params, Var{N: fmt.Sprintf("mp%d", j), T: Unit(m)})
+			call.Args = append(call.Args, fmt.Sprintf("ma%d", j))
+		}
+		f.Body = body
+		var top *Term = call
+		for j := n - 1; j >= 0; j-- {
+			top = &Term{Op: "new", Y: fmt.Sprintf("ma%d", j), Ann: Unit(m), Body: &Term{Op: "close", X: "self"}, Cont: top}
+		}
+		q.Funcs = append(q.Funcs, f)
+		q.Procs = append(q.Procs, &Proc{Names: []string{"manypuser"}, T: Unit(m), Body: top})
+	}
+	q.Feat = map[string]int{}
+	for k, v := range p.Feat {
+		q.Feat[k] = v
+	}
+	q.Feat["inflated-"+kind]++
+	return q, kind
 }
